@@ -151,6 +151,12 @@ func c11Prop(st *CaseStats, fam int) func(t *rapid.T) {
 				}
 			}
 		}
+		if len(first) < 1<<20 && rapid.IntRange(0, 3).Draw(t, "keptWriterPersist") == 0 {
+			if err := keptWriterPersists(c.Seg, first); err != nil {
+				t.Fatalf("%s:\n  %v", desc, err)
+			}
+			labels = append(labels, "kept-bufio-destination(persist)")
+		}
 		mem, err := LoadMem(first)
 		if err != nil {
 			t.Fatalf("%s: %v", desc, err)
